@@ -1,7 +1,7 @@
 (* C03 — mixins bind arguments, attributes and block content per call.
    Property theorems only (about the executor model Tmpl/Exec.v after repair 40255c5, for all programs, states and
    fuel); proofs are in Proofs/C03Proofs.v. *)
-From PV Require Import Base.Bytes Tmpl.Value Tmpl.IR Tmpl.Runtime Tmpl.Exec Proofs.ExecMono Proofs.C03Proofs.
+From PV Require Import Base.Bytes Js.Ast Pug.Ast Pug.Compile Tmpl.Value Tmpl.IR Tmpl.Runtime Tmpl.Exec Proofs.ExecMono Proofs.C03Proofs.
 
 (* "every call independently … never see another call's arguments or block": whatever a body does — any nesting
    of calls, blocks, loops, recursion — it changes only the executing frame; every frame below it is untouched. *)
@@ -74,3 +74,46 @@ Theorem C03_parameters_positional : forall h l items i,
   rt_tryindex h (VArr l) (VInt (Z.of_nat i)) = Ok (match nth_error items i with Some v => box v | None => VNil end).
 Proof. exact param_binding. Qed.
 Print Assumptions C03_parameters_positional.
+
+(* "attributes ... per call": the attributes object built for a call is a NEW object — its location was not
+   allocated before the call, so no earlier call, render or frame can hold it and nothing stored into an earlier
+   call's attributes can show in it; every existing object keeps its contents; a call without attributes gets an
+   empty object of its own; the objects of two calls are different objects *)
+Theorem C03_attributes_object_fresh : forall h l loc h',
+  rt_map_params h l = Ok (VMap loc, h') ->
+  hget h loc = None /\ (forall k o, hget h k = Some o -> hget h' k = Some o) /\ exists items, hget h' loc = Some (OMap items []).
+Proof. exact map_params_fresh. Qed.
+Print Assumptions C03_attributes_object_fresh.
+
+Theorem C03_no_attributes_is_an_own_empty_object : forall h,
+  rt_map_params h [] = Ok (VMap (length h), h ++ [OMap [] []]).
+Proof. exact map_params_none. Qed.
+Print Assumptions C03_no_attributes_is_an_own_empty_object.
+
+Theorem C03_attributes_objects_distinct : forall h1 l1 loc1 h1' h2 l2 loc2 h2',
+  rt_map_params h1 l1 = Ok (VMap loc1, h1') -> length h1' <= length h2 ->
+  rt_map_params h2 l2 = Ok (VMap loc2, h2') -> loc1 <> loc2.
+Proof. exact map_params_distinct. Qed.
+Print Assumptions C03_attributes_objects_distinct.
+
+(* "block content per call": a call site whose block content is nothing but `block` is lowered like every other
+   call with block content — a wrapper block named after THIS call site (block_<mixin>_<counter>, counter advanced),
+   bound by the calling frame with __freeze and passed by that name; the wrapper's content is the placement of the
+   caller's block.  (The caller's own block name is not handed on: the executor resolves names against the frames
+   above the placing one, C03_own_binding_is_not_the_block, and that is only right for the wrapper's frame.) *)
+Theorem C03_pure_forwarding_gets_own_block : forall funcs dbg f raw st name,
+  is_ident name = true ->
+  exists ts,
+    cnode funcs dbg (S (S (S f))) raw st (PMixinCall name [] [] [PMixinBlock])
+    = Some (ts, raw,
+            {| cs_mixins := cs_mixins st;
+               cs_blocks := cs_blocks st ++
+                 [[TText nl; TText nl;
+                   TAct (B "{{- define """ ++ (B "block_" ++ name ++ B "_" ++ show_nat (cs_counter st)) ++ B """ -}}") true true
+                        (AcDefine (B "block_" ++ name ++ B "_" ++ show_nat (cs_counter st))); TText nl;
+                   TAct (B "{{- template $block -}}") true true (AcTemplate (B "block") true None);
+                   TText nl; TAct (B "{{- end -}}") true true AcEnd]];
+               cs_counter := S (cs_counter st) |})
+    /\ call_site_shape name (B "block_" ++ name ++ B "_" ++ show_nat (cs_counter st)) ts.
+Proof. exact pure_forward_gets_own_block. Qed.
+Print Assumptions C03_pure_forwarding_gets_own_block.
